@@ -61,6 +61,14 @@ NEEDED = {
     "S-C18-6": "C18 restart on a fixed address (standalone and async templates), the server's end closing first so that its connections are in TIME_WAIT on the listening address",
     "S-C20-6": "none: the change is in the blocking API's lock_with_timeout (C20 is about asynchronous sends); C12's lock-timeout scenario catches it",
     "S-C15-5": "none for C15: the change re-opens the defect repaired by c26d018 in the asyncio socket adapter (bytes written into the caller's buffer in the iteration in which the waiting task is cancelled); C10 drives that adapter over real sockets, including the server's request receiver with yielded timeouts, and catches it; C15 drives the server over in-memory transports",
+    "S-C03-6": "C03 two reader threads on the blocking client: one blocked in recv_packet(None), the other polling with timeout 0 / 0.05 / the default iterator (same change as S-C20-6, which C12 catches on the send side; threads are outside C03's stated quantifier, the scenario was added all the same)",
+    "S-C07-6": "C07 asynchronous endpoint polled under a deadline (move_on_after / timeout / task cancellation) while an endless unterminated frame drips (C10 and C03 caught it before as lost data)",
+    "S-C10-6": "C15 waits bounded by a timeout() / move_on_after() scope around the yield, in handle() and in on_connection() generators; C10 server request receiver also through the high-level handler wrapper (handle / on_connection generators)",
+    "S-C11-6": "C11 timeout value math.inf; the harness's virtual lock now refuses what threading.Lock refuses (it had accepted an infinite timeout)",
+    "S-C14-6": "C14 server teardown variants '+sender': an application task suspended in send_packet() on the same client when the connection's task ends (exception, end-of-stream, server cancelled)",
+    "S-C15-6": "none for C15: the change is in the TLS transport's receive path (a cancelled receive writes EOF into the read BIO); C10's tls layer catches it; C15 drives the server over plain in-memory transports",
+    "S-C17-6": "C17 distinct values for ssl_handshake_timeout / ssl_shutdown_timeout and the rule 'a stalled handshake is dropped at the handshake timeout' (virtual time, asynchronous server); StandaloneTCPNetworkServer with TLS and a stalled client (real time, verdict at 30x the configured value)",
+    "S-C19-6": "C19 real connects: the stock AsyncIODNSResolver.connect_socket() over loopback with a black-holed address (full accept queue), a refused port and a reachable server; census of leftover tasks and selector registrations, then a fresh connection that reuses the abandoned descriptor numbers",
     "S-C04-2": "C04 interrupted send then resume (C20 caught it before)",
 }
 rows = []
